@@ -554,3 +554,45 @@ func addendumFor(prop string) string {
 	}
 	return ""
 }
+
+// declsReachableFrom returns the declarations of package p reachable through static same-package calls (and references
+// to same-package functions used as values) from the named roots ("Name" or "Recv.Name"), the roots included. Rules
+// that say "the load path reads field F" use it instead of the file a function happens to live in.
+func declsReachableFrom(p *packages.Package, roots ...string) map[*ast.FuncDecl]bool {
+	decls := FuncDecls(p)
+	byObj := map[types.Object]*ast.FuncDecl{}
+	for _, fd := range decls {
+		if o := p.TypesInfo.Defs[fd.Name]; o != nil {
+			byObj[o] = fd
+		}
+	}
+	seen := map[*ast.FuncDecl]bool{}
+	var work []*ast.FuncDecl
+	for _, rname := range roots {
+		if fd := decls[rname]; fd != nil && !seen[fd] {
+			seen[fd] = true
+			work = append(work, fd)
+		}
+	}
+	for len(work) > 0 {
+		fd := work[0]
+		work = work[1:]
+		if fd.Body == nil {
+			continue
+		}
+		ast.Inspect(fd.Body, func(n ast.Node) bool {
+			id, ok := n.(*ast.Ident)
+			if !ok {
+				return true
+			}
+			if fn, ok := p.TypesInfo.Uses[id].(*types.Func); ok {
+				if next := byObj[fn.Origin()]; next != nil && !seen[next] {
+					seen[next] = true
+					work = append(work, next)
+				}
+			}
+			return true
+		})
+	}
+	return seen
+}
